@@ -307,7 +307,46 @@ func (n *quotedString) Text() string {
 
 // String returns the SQL/JSON path-encoded quoted string.
 func (n *quotedString) String() string {
-	return strconv.Quote(n.str)
+	return quote(n.str)
+}
+
+// quote returns str as a double-quoted SQL/JSON path string literal. It
+// relies on [strconv.Quote], but replaces the two Go escape sequences that
+// path strings do not have, \a and \UXXXXXXXX, with their path equivalents,
+// \x07 and \u{XXXXXX}.
+func quote(str string) string {
+	quoted := strconv.Quote(str)
+	if !strings.Contains(quoted, `\a`) && !strings.Contains(quoted, `\U`) {
+		return quoted
+	}
+
+	// \UXXXXXXXX has eight hex digits, the first two of which are always 0;
+	// \u{} takes up to six.
+	const (
+		hexLen   = 8
+		hexStart = 2
+	)
+	buf := new(strings.Builder)
+	for i := 0; i < len(quoted); i++ {
+		if quoted[i] != '\\' {
+			buf.WriteByte(quoted[i])
+			continue
+		}
+
+		// Every backslash that strconv.Quote writes starts an escape sequence.
+		i++
+		switch quoted[i] {
+		case 'a':
+			buf.WriteString(`\x07`)
+		case 'U':
+			buf.WriteString(`\u{` + quoted[i+1+hexStart:i+1+hexLen] + `}`)
+			i += hexLen
+		default:
+			buf.WriteByte('\\')
+			buf.WriteByte(quoted[i])
+		}
+	}
+	return buf.String()
 }
 
 // writeTo writes n.String to buf.
@@ -882,7 +921,7 @@ func (n *RegexNode) writeTo(buf *strings.Builder, _, withParens bool) {
 	}
 
 	n.operand.writeTo(buf, false, operandNeedsParens(n.operand, n.priority()))
-	fmt.Fprintf(buf, " like_regex %q%v", n.pattern, n.flags)
+	fmt.Fprintf(buf, " like_regex %v%v", quote(n.pattern), n.flags)
 
 	if withParens {
 		buf.WriteRune(')')
